@@ -36,6 +36,15 @@ MENU = {
     "unsorted": [4, 0, 2.5, 7, 1],
 }
 NAMES = list(MENU)
+# long measured axes with one-decimal end points against an integer-nm grid (end points that a start + k * step formula does not hit exactly)
+MENU_LONG = {
+    "nm-int": np.arange(300.0, 701.0, 1.0).tolist(),
+    "lin74": np.linspace(357.8, 677.6, 74).tolist(),
+    "lin41": np.linspace(369.2, 692.1, 41).tolist(),
+    "lin37": np.linspace(332.7, 639.1, 37).tolist(),
+    "lin53": np.linspace(301.3, 688.9, 53).tolist(),
+}
+MENU.update(MENU_LONG)
 # the same menu in other coordinate frames x -> a*x + b (wavelengths in SI metres; a large offset relative to the step)
 # "int": integer-valued domains are handed over as integer-typed arrays (np.arange(300, 700) style)
 FRAMES = {"plain": (1.0, 0.0), "metres": (0.5e-9, 300e-9), "offset1e6": (1.0, 1.0e6), "int": (1.0, 0.0)}
@@ -61,6 +70,8 @@ def units(tier, seed):
                 if frame != "plain" and k > (2 if tier == "quick" else 3):
                     continue
                 out.append(dict(kind="equalize", first=first, k=k, frame=frame, tier=tier))
+    for first in MENU_LONG:
+        out.append(dict(kind="equalize", first=first, k=2, frame="plain", pool=list(MENU_LONG), tier=tier))
     out.append(dict(kind="estimator", tier=tier))
     return out
 
@@ -104,7 +115,8 @@ def run_unit(unit, rec):
     if unit["kind"] == "estimator":
         return _run_estimator(unit, rec, dreye)
     first, k, frame = unit["first"], unit["k"], unit.get("frame", "plain")
-    for rest in itertools.product(NAMES, repeat=k - 1):
+    pool = unit.get("pool", NAMES)
+    for rest in itertools.product(pool, repeat=k - 1):
         tup = (first,) + rest
         doms = [_dom(n, frame) for n in tup]
         # round-off of the interpolation weights (x - x0) / (x1 - x0) grows with |x| / step
@@ -113,7 +125,9 @@ def run_unit(unit, rec):
         kind, info = expected_domain([list(d) for d in doms])
         cls = "identical" if identical else {"reject": "no-overlap", "open": "overlap<step", "ok": "overlap"}[kind]
         rec.state(tup)
-        layouts = ["eye-last"] if k >= 3 and tup[1] != tup[-1] else ["eye-last", "eye-axis0", "rank3-axis1", "stack", "concat", "rank1"]
+        layouts = ["eye-last"] if k >= 3 and tup[1] != tup[-1] else ["eye-last", "eye-axis0", "rank3-axis1", "rank3-axis0", "rank4-axis1", "stack", "concat", "rank1"]
+        if "pool" in unit:
+            layouts = ["stack", "rank1"]
         for lay in layouts:
             arrs, axes, kw = [], None, {}
             for d in doms:
@@ -127,6 +141,16 @@ def run_unit(unit, rec):
                 elif lay == "rank3-axis1":
                     arrs.append(np.stack([E, 2 * E], axis=2))  # (n_basis, n_domain, 2): domain on axis 1
                     axes = 1
+                elif lay in ("rank3-axis0", "rank4-axis1"):
+                    # the domain axis two or more positions before the last one; the other axes have distinct sizes
+                    vals = ((np.arange(n) * 3) % 5) * 0.5 + 0.25 * (np.arange(n) % 2)
+                    blk = np.multiply.outer(vals, np.array([[1.0, 2.0, 3.0], [-1.0, 0.5, 0.25]]))  # (n, 2, 3)
+                    if lay == "rank3-axis0":
+                        arrs.append(blk)
+                        axes = 0
+                    else:
+                        arrs.append(np.multiply.outer(np.array([1.0, -2.0, 0.5, 4.0]), blk))  # (4, n, 2, 3)
+                        axes = 1
                 elif lay == "stack":
                     arrs.append(np.stack([np.arange(n) * 1.0, (np.arange(n) % 2) * 2.0 - 0.5]))
                     kw = dict(stack_axis=0)
@@ -213,7 +237,7 @@ def run_unit(unit, rec):
 
 
 def _run_estimator(unit, rec, dreye):
-    for fa, fb in itertools.product(NAMES, repeat=2):
+    for fa, fb in list(itertools.product(NAMES, repeat=2)) + [("nm-int", k_) for k_ in MENU_LONG if k_ != "nm-int"]:
         da, db = np.array(MENU[fa], dtype=float), np.array(MENU[fb], dtype=float)
         if fa == "unsorted":
             continue  # the estimator's own domain is documented as ascending
